@@ -333,6 +333,25 @@ def monitor_hooked(cfg, events, drv, obs, marks):
                     bad.append(("C13_quiescent_after_stop", i, "stop() called from the start Deferred's errback returned but something is still running: %r" % (obs[i],)))
         elif how == "raised":
             bad.append(("C13_hook", i, "%s called from the start Deferred's errback raised %d" % ({2: "commit()", 3: "shutdown()"}[hook], val)))
+    # after a stop() that returned (hooked or not): nothing is sent / scheduled / delivered, nothing is left running and
+    # last_committed_offset does not move until the next start() (or a commit() the application makes by hand)
+    _, ends = L.split_steps(drv.trace)
+    stopped_at = {step - 1 for (step, hook, how, val, tlen) in drv.hook_log if hook == 1 and how == "ret"}
+    clean, lc0 = False, None
+    for i, (ev, outs) in enumerate(zip(events, steps)):
+        accepted_start = ev[0] == L.EV_START and (L.OUT_RET, 0) in outs
+        if accepted_start or ev[0] == L.EV_COMMIT:
+            clean = False
+        if clean:
+            acts = [o for o in outs if o[0] in L.ACTIVITY]
+            if acts:
+                bad.append(("C13_quiescent_closed", i, "activity %r after stop() returned (event %s)" % (acts[:3], L.EV_NAMES[ev[0]])))
+            if not idle(obs[i]):
+                bad.append(("C13_quiescent_closed", i, "something is running after stop() returned: %r" % (obs[i],)))
+            if ends[i][1] != lc0:
+                bad.append(("C13_quiescent_closed", i, "last_committed_offset moved from %d to %d after stop() returned" % (lc0, ends[i][1])))
+        if i in stopped_at or (ev[0] == L.EV_STOP and any(o[0] == L.OUT_RET for o in outs)):
+            clean, lc0 = True, ends[i][1]
     return bad
 
 
@@ -421,7 +440,47 @@ def run(ck):
                 ck.violation({"kind": "monitor failed on the implementation's trace (re-entrant callback on the start Deferred)", "theorem": b2[0][0],
                               "step": b2[0][1], "what": b2[0][2], "hook": {1: "stop()", 2: "commit()", 3: "shutdown()"}[hook], "cfg": cfg.line(),
                               "events": [list(e) for e in small], "impl_trace": d2.trace, "replay_op": "hooked", "hook_code": hook})
-    ck.cov["hooked_start_errback_runs"] = {"cases": 250 * scale, "hook_invocations": nh, "failing": hooked_bad}
+    # directed: every state class of the quantifier, then an event that makes the start Deferred fail (the errback runs
+    # stop()/commit()/shutdown() in the middle of whatever chain reported the failure), then the outstanding replies
+    FAILERS = [[(L.EV_PROC_FIRE, 0)], [(L.EV_REQ_FAIL, L.FK_KAFKA)], [(L.EV_REQ_FAIL, L.FK_OOR)], [(L.EV_COMMIT_FAIL, L.FK_OTHER)],
+               [(L.EV_COMMIT_FAIL, L.FK_GEN)], [(L.EV_FETCH_OK, [], 1)], [(L.EV_PLAN, 0, 1), (L.EV_FIRE_RETRY,), (L.EV_FETCH_OK, "next", 0)],
+               [(L.EV_SHUTDOWN,), (L.EV_PROC_FIRE, 0)], [(L.EV_SHUTDOWN,), (L.EV_COMMIT_FAIL, L.FK_OTHER)]]
+    ndir = 0
+    for rep in range(2 * scale):
+        for name, kw, pre in preambles(rnd) + [
+                ("processed-uncommitted+processor-pending", dict(group=1, acn=0),
+                 [(L.EV_START, 0), (L.EV_PLAN, 0, 0), (L.EV_FETCH_OK, [0, 1], 0), (L.EV_FIRE_RETRY,), (L.EV_FETCH_OK, [2], 0)])]:
+            for fail in FAILERS:
+                hook = rnd.choice([1, 1, 1, 2, 3])
+                cfg = L.Cfg(**dict(dict(maxatt=1, buf=4096, maxbuf=4096), **kw))
+                L.quiet()
+                d0 = HookedDriver(cfg, hook)
+                evs = []
+                for ev in list(pre) + list(fail):
+                    if ev[0] == L.EV_FETCH_OK and ev[1] == "next":
+                        last = [a for (_, what, a) in d0.sent if what == "fetch"]
+                        ev = (L.EV_FETCH_OK, [(last[-1][0] if last else 0)], ev[2])
+                    evs.append(ev)
+                    d0.step(ev)
+                for _ in range(rnd.randint(0, 5)):
+                    ev = L.gen_event(rnd, d0, {L.EV_START: 2, L.EV_STOP: 1, L.EV_SHUTDOWN: 1, L.EV_COMMIT: 0.5, L.EV_PLAN: 1})
+                    evs.append(ev)
+                    d0.step(ev)
+                drvh, obsh, marks = run_hooked(cfg, evs, hook)
+                ndir += 1
+                nh += len(drvh.hook_log)
+                ck.hist("hooked_errback:%d" % hook, len(drvh.hook_log))
+                bh = monitor_hooked(cfg, evs, drvh, obsh, marks)
+                if bh:
+                    hooked_bad += 1
+                    if hooked_bad <= 3:
+                        small = L.shrink(cfg, evs, lambda c, e: bool(monitor_hooked(c, e, *run_hooked(c, e, hook))))
+                        d2, o2, m2 = run_hooked(cfg, small, hook)
+                        b2 = monitor_hooked(cfg, small, d2, o2, m2) or bh
+                        ck.violation({"kind": "monitor failed on the implementation's trace (re-entrant callback on the start Deferred)", "theorem": b2[0][0],
+                                      "step": b2[0][1], "what": b2[0][2], "hook": {1: "stop()", 2: "commit()", 3: "shutdown()"}[hook], "state_class": name,
+                                      "cfg": cfg.line(), "events": [list(e) for e in small], "impl_trace": d2.trace, "replay_op": "hooked", "hook_code": hook})
+    ck.cov["hooked_start_errback_runs"] = {"random_cases": 250 * scale, "directed_cases": ndir, "hook_invocations": nh, "failing": hooked_bad}
 
     nbad = 0
     for label, items in batches:
